@@ -471,8 +471,17 @@ func c03ManyReady(c *vf.Case, w *sim.World) {
 		c.Failf("expired-timers-not-dispatched", "%d expired timers: only %d callbacks ran in %d PollOne calls", k, fired, polls)
 		return
 	}
-	if n, err := w.IOC.PollOne(); err == nil || n != 0 {
-		c.Failf("pollone-success-with-nothing-ready", "after all %d timers fired: PollOne returned n=%d err=%v", k, n, err)
+	// nothing is left: PollOne reports the timeout (a stale kernel event may still be reported once or twice: n counts
+	// kernel events, see the assumptions)
+	quiet := false
+	var lastN int
+	var lastErr error
+	for i := 0; i < 4 && !quiet; i++ {
+		lastN, lastErr = w.IOC.PollOne()
+		quiet = lastErr != nil && lastN == 0
+	}
+	if !quiet {
+		c.Failf("pollone-success-with-nothing-ready", "after all %d timers fired: four PollOne calls in a row reported success (last: n=%d err=%v)", k, lastN, lastErr)
 		return
 	}
 	c.Count("many_ready_probes", 1)
